@@ -272,7 +272,7 @@ func (c *VCtx) assumeGlobal(st, before *State) {
 		if g.trans && before == nil {
 			continue
 		}
-		c.fact(Implies(st.pc, c.translateBool(c.globalScope(g.pkg, st, before), g.cl.E)))
+		c.factG(st.pc, c.translateBool(c.globalScope(g.pkg, st, before), g.cl.E))
 	}
 	if len(st.held) == 0 && c.hasGinv() {
 		for _, pkg := range c.relevantPkgs() {
@@ -297,7 +297,7 @@ func (c *VCtx) assumeGlobal(st, before *State) {
 					x := TG(SRef, pt, "q!this")
 					sc.vars["this"] = x
 					body := c.translateBool(sc, inv.E)
-					c.fact(Implies(st.pc, T(SBool, fmt.Sprintf("(forall ((q!this Ref)) (=> (not (= q!this null)) %s))", body.S))))
+					c.factG(st.pc, T(SBool, fmt.Sprintf("(forall ((q!this Ref)) (=> (not (= q!this null)) %s))", body.S)))
 				}
 			}
 		}
